@@ -8,7 +8,7 @@ import sys
 import traceback
 
 
-class CaseTimeout(Exception):
+class CaseTimeout(BaseException):  # BaseException: must not be swallowed by a broad `except Exception` inside psutil
     pass
 
 
